@@ -402,3 +402,58 @@ func E1ContextDraws(c *core.Ctx, r *core.Report) {
 		r.Fail("E1.ctx-dash", "canvas.Context.DrawPath|dash array uses", c.Pos(fd.Pos()), "the shared dash array is handed to a function other than checkDash")
 	}
 }
+
+// E1ContextSetters: style setters replace values in the context; they never write through the
+// slices/pointers already in it, which every state saved by Push shares.
+func E1ContextSetters(c *core.Ctx, r *core.Report) {
+	r.Rule("E1.ctx-setter-alias", "no Set*/Reset* method of Context that stores into ContextState writes memory reachable *through* the context (level >= 1: the dash array, gradients, the stack's backing array); it may only replace the fields themselves, because Push saves ContextState by value and the saved copies share everything behind slices and pointers")
+	a := newEffects(c, r)
+	p := c.MustPkg("")
+	var roots []*ssa.Function
+	for _, fd := range core.AllFuncDecls(p) {
+		if core.RecvName(fd) != "Context" || !fd.Name.IsExported() {
+			continue
+		}
+		name := fd.Name.Name
+		if !(strings.HasPrefix(name, "Set") || strings.HasPrefix(name, "Reset")) {
+			continue
+		}
+		// forwarders that keep no state in the context (SetZIndex) are not state setters
+		stores := false
+		recv := recvObj(p.TypesInfo, fd)
+		ast.Inspect(fd.Body, func(n ast.Node) bool {
+			if as, ok := n.(*ast.AssignStmt); ok {
+				for _, l := range as.Lhs {
+					if root := core.RootIdent(l); root != nil && core.ObjOf(p.TypesInfo, root) == recv {
+						if _, isIdent := l.(*ast.Ident); !isIdent {
+							stores = true
+						}
+					}
+				}
+			}
+			return true
+		})
+		if stores {
+			roots = append(roots, c.SSAFunc("", "Context."+name))
+		}
+	}
+	a.solve(roots)
+	r.Count("E1.ctx-setters", len(roots))
+	for _, f := range roots {
+		s := a.sums[f]
+		key := core.ShortFunc(f) + "|receiver beyond its own fields"
+		r.Func(core.ShortFunc(f))
+		var ws []string
+		for lvl := 1; lvl <= maxLevel; lvl++ {
+			if w, ok := s.W[wkey{0, lvl}]; ok {
+				ws = append(ws, fmt.Sprintf("level %d: %s", lvl, w))
+			}
+		}
+		if len(ws) == 0 {
+			r.OK("E1.ctx-setter-alias", key, a.pos(f.Pos()), "replaces fields only")
+		} else {
+			r.Fail("E1.ctx-setter-alias", key, a.pos(f.Pos()), fmt.Sprintf("%s writes through memory the context already references (e.g. re-using the backing array of Style.Dashes): a state saved by Push shares that memory, so Pop restores a different style than was pushed", core.ShortFunc(f)), ws...)
+		}
+	}
+	r.Floor("E1.ctx-setters", 18)
+}
